@@ -44,7 +44,9 @@ pub fn enabled(m: &Model, op: &Op) -> bool {
         // VACUUM is documented to abort open transactions and reopen ends them; a checkpoint (flush) with
         // sessions open is ordinary use and matters for C02 (uncommitted data reaches the data file)
         Op::Vacuum => m.sessions.is_empty() || m.vacuum_with_sessions,
-        Op::Reopen | Op::Analyze => m.sessions.is_empty(),
+        Op::Reopen => m.sessions.is_empty(),
+        // ANALYZE next to open sessions is ordinary use (it rewrites the statistics in every table's catalogue row)
+        Op::Analyze => true,
         Op::Flush => true,
         Op::Audit => true,
         Op::Auto(_) | Op::Batch(_) => true,
